@@ -49,6 +49,10 @@ enum Ev {
     SecIdle,
     /// one second with a burst of 40 client datagrams (several threshold flushes per link)
     SecBurst,
+    /// a burst second during which sends on link l fail for a moment (the receiver's port is closed while the first
+    /// 30 of 40 datagrams are routed, then open again): the link is soft-reset in the data path, keeps its socket,
+    /// and the receiver - which still knows that address - goes on sending it the cumulative ACKs
+    SecGlitch(usize),
     Fault(usize, Mode),
     Repair(usize),
     BindFails(usize),
@@ -125,6 +129,10 @@ impl M {
             // reduced alphabet for long outages followed by a repair (or a flap)
             events = vec![Ev::SecIdle, Ev::Sec, Ev::Fault(1, Mode::BlackHole), Ev::Repair(1), Ev::Fault(1, Mode::Flap)];
         }
+        if level == 6 {
+            // a momentary send failure under a receiver that sends its ACKs to every link it knows
+            events = vec![Ev::SecBurst, Ev::SecIdle, Ev::SecGlitch(0), Ev::Sec];
+        }
         if level == 5 {
             // a send failure soon after a rejoin (default symbol Sec: streaming)
             events = vec![Ev::SecBurst, Ev::SecIdle, Ev::Fault(1, Mode::BlackHole), Ev::Repair(1), Ev::Fault(1, Mode::SendFails)];
@@ -137,6 +145,7 @@ impl M {
                 3 => " (back-off horizon)",
                 4 => " (long outage horizon)",
                 5 => " (send failure after rejoin)",
+                6 => " (send glitch, ACKs on every known link)",
                 _ => "",
             }
         );
@@ -151,6 +160,9 @@ fn client_type(b: &[u8]) -> bool {
 impl M {
     /// one second of the closed loop
     fn second(&self, env: &mut Env, s: &mut St, datagrams: usize) -> Result<(), Fail> {
+        self.second_g(env, s, datagrams, None)
+    }
+    fn second_g(&self, env: &mut Env, s: &mut St, datagrams: usize, glitch: Option<usize>) -> Result<(), Fail> {
         let traffic = datagrams > 0;
         let n = self.n;
         s.w.advance(1000);
@@ -362,7 +374,17 @@ impl M {
             let down_start: Vec<bool> = (0..n).map(|l| !s.w.connections[l].connected).collect();
             let established = s.w.reg.has_connected;
             let mut seen = vec![Vec::<u32>::new(); n];
-            for _ in 0..datagrams {
+            if let Some(g) = glitch {
+                s.w.rx_open[g] = false;
+            }
+            for k in 0..datagrams {
+                if let Some(g) = glitch {
+                    if k == datagrams * 3 / 4 {
+                        s.w.rx_open[g] = true;
+                        // the 30 s clause counts from here
+                        s.mon[g].ok_since = Some(s.w.now);
+                    }
+                }
                 s.w.advance(if datagrams > 5 { 1 } else { 2 });
                 let seq = s.next_seq;
                 s.next_seq += 1;
@@ -426,7 +448,21 @@ impl M {
                     top = top.max(*q);
                 }
             }
-            if top > 0 {
+            if top > 0 && self.level == 6 {
+                // a receiver that sends the cumulative SRT ACK to every link of the group it knows
+                for l in 0..n {
+                    if matches!(s.mode[l], Mode::BlackHole | Mode::SendFails) || !s.rec_known[l] {
+                        continue;
+                    }
+                    let mut p = vec![0u8; 44];
+                    p[0] = 0x80;
+                    p[1] = 0x02;
+                    p[16..20].copy_from_slice(&top.to_be_bytes());
+                    s.last_live_delivery[l] = s.w.now;
+                    s.last_delivered[l] = s.w.now;
+                    s.w.arm_uplink(env, l, &p);
+                }
+            } else if top > 0 {
                 if let Some(l) = (0..n).find(|l| !matches!(s.mode[*l], Mode::BlackHole | Mode::SendFails) && s.rec_known[*l]) {
                     let mut p = vec![0u8; 44];
                     p[0] = 0x80;
@@ -452,8 +488,12 @@ impl M {
             if !c.connected && !s.mon[l].had_bind_fault {
                 let since = s.mon[l].ok_since.unwrap();
                 if s.w.now - since > 30_000 {
+                    // one way of getting here is a recorded finding (known_findings.json) and has a key of its own, judged
+                    // on the harness's own clocks: the link was handed stamp-refreshing datagrams all along (so it never
+                    // counts as silent) and no reconnect attempt was made since the path is fine
+                    let kept_fresh = s.w.now.saturating_sub(s.last_live_delivery[l]) < timeout && s.mon[l].last_attempt <= since;
                     return Err(Fail::new(
-                        "not-rejoined-within-30s",
+                        if kept_fresh { "not-rejoined-within-30s:soft-reset-link-kept-fresh-by-receiver-traffic-is-never-retried" } else { "not-rejoined-within-30s" },
                         format!("link {l}: path and receiver fine since +{} ms, still not connected at +{} ms (failure count {}, last attempt +{} ms)", since - T0, s.w.now - T0, c.reconnection.reconnect_failure_count, c.reconnection.last_reconnect_attempt_ms.saturating_sub(T0)),
                     ));
                 }
@@ -512,6 +552,7 @@ impl Model for M {
             Ev::Sec => self.second(env, s, 5),
             Ev::SecIdle => self.second(env, s, 0),
             Ev::SecBurst => self.second(env, s, 40),
+            Ev::SecGlitch(l) => self.second_g(env, s, 40, Some(l)),
             Ev::Fault(l, m) => {
                 s.mode[l] = m;
                 s.w.rx_open[l] = m != Mode::SendFails;
@@ -570,7 +611,12 @@ impl Model for M {
 fn models(tier: Tier) -> Vec<(String, Arc<M>, Vec<Plan>)> {
     let sec = 0usize;
     let idle = 1usize;
-    let mut out = Vec::new();
+    let mut pre: Vec<(String, Arc<M>, Vec<Plan>)> = Vec::new();
+    {
+        let m = Arc::new(M::new(2, 5000, false, 6));
+        pre.push((m.name.clone(), m, vec![Plan::Dev { k: 1, depth: 40, default: Arc::new(move |_| 3) }, Plan::Dev { k: 1, depth: 40, default: Arc::new(move |_| 0) }]));
+    }
+    let mut out = pre;
     let mk = |n: usize, timeout: u64, classic: bool, level: u8| Arc::new(M::new(n, timeout, classic, level));
     if tier.is_quick() {
         let m = mk(2, 5000, false, 1);
